@@ -106,7 +106,7 @@ def run(chk):
     # "arbitrary type/output attributes": besides an unknown string, attribute values of other kinds - among them an unhashable
     # one, which a hashed lookup would answer with TypeError where the documented report is ValueError - and an output flag
     # that is truthy without being the object True
-    junk_types = [["and"], None, 7]
+    junk_types = [["and"], None, 7, 0, 1]  # ints 0 / 1: the *strings* "0" and "1" are supported types
     types = list(sup) + [MISSING, "bogus_type"] + junk_types
     fo_states = [(0, None)] + [(k, ft) for k in range(1, min(K, 3) + 1) for ft in ("buf", "not")]
     # dotted names: instance registered / not registered / not registered while a registered instance's name is a proper
@@ -232,7 +232,7 @@ def run(chk):
         return r if isinstance(r, tuple) else ("return", None)
 
     def registry_model(defs):
-        """defs: {inst: (bbname, {pin: ('in'|'out', present, type)})}"""
+        """defs: {inst: (bbname, {pin: ('in'|'out', present, type)})}; type MISSING = the pin node exists without a type attribute"""
         attrs = {"a": {"type": "input", "output": False}, "o": {"type": "buf", "output": True}}
         edges = [("a", "o")]
         bbs = {}
@@ -240,7 +240,7 @@ def run(chk):
             bbs[inst] = MBlackBox(bbname, [p for p, (d, _, _) in pins.items() if d == "in"], [p for p, (d, _, _) in pins.items() if d == "out"])
             for pin, (d, present, t) in pins.items():
                 if present:
-                    attrs[f"{inst}.{pin}"] = {"type": t, "output": False}
+                    attrs[f"{inst}.{pin}"] = {"output": False} if t is MISSING else {"type": t, "output": False}
         return MCircuit(attrs, edges, bbs)
 
     n_pin = 0
@@ -250,6 +250,7 @@ def run(chk):
         cases.append((f"pin:{d}:missing", {"u0": ("ff", {"p": (d, False, None)})}, True))
         for t in bads:
             cases.append((f"pin:{d}:typed-{t}", {"u0": ("ff", {"p": (d, True, t)})}, True))
+        cases.append((f"pin:{d}:node-without-a-type", {"u0": ("ff", {"p": (d, True, MISSING)})}, True))
     ok2 = {"p": ("in", True, "bb_input"), "q": ("out", True, "bb_output")}
     cases.append(("two-instances:ok", {"u0": ("ff", dict(ok2)), "u1": ("ff", dict(ok2))}, False))
     cases.append(("two-instances:second-missing-pin", {"u0": ("ff", dict(ok2)), "u1": ("ff", {"p": ("in", True, "bb_input"), "q": ("out", False, None)})}, True))
